@@ -39,7 +39,7 @@ type Case struct {
 
 var copGen = rapid.Custom(func(t *rapid.T) COp {
 	return COp{
-		K:    rapid.SampledFrom([]string{"add", "add", "add", "add", "get", "list", "seen", "seen", "remove", "remove", "purge", "visit", "scan"}).Draw(t, "k"),
+		K:    rapid.SampledFrom([]string{"add", "add", "add", "add", "get", "latest", "list", "seen", "seen", "remove", "remove", "purge", "visit", "scan"}).Draw(t, "k"),
 		Box:  rapid.IntRange(0, 3).Draw(t, "box"),
 		Ref:  rapid.IntRange(0, 50).Draw(t, "ref"),
 		Size: rapid.SampledFrom([]int{10, 100, 400, 900}).Draw(t, "size"),
@@ -129,6 +129,13 @@ func step(cap int) func(st, in, out interface{}) (bool, interface{}) {
 				return !o.found, s
 			}
 			return o.found, s
+		case "latest":
+			// the pseudo-id "latest" names the newest message of the mailbox
+			if len(live) == 0 {
+				return !o.found, s
+			}
+			last := live[len(live)-1]
+			return o.found && o.id == last[:strings.IndexByte(last, ':')], s
 		case "list":
 			return o.list == parts[0], s
 		case "seen":
@@ -247,6 +254,13 @@ func runFree(c Case) *hx.Outcome {
 						out.seen = m.Seen()
 					}
 					record(ci, inp{"get", box, id}, out, call, clock.Add(1))
+				case "latest":
+					m, err := st.GetMessage(box, "latest")
+					out := outp{found: err == nil && m != nil}
+					if out.found {
+						out.id = m.ID()
+					}
+					record(ci, inp{"latest", box, ""}, out, call, clock.Add(1))
 				case "list":
 					ms, err := st.GetMessages(box)
 					out := outp{list: listStr(ms), err: errStr(err)}
@@ -496,6 +510,9 @@ func runSched(c SCase) *hx.Outcome {
 			if err == nil && m != nil {
 				_ = m.Seen()
 			}
+			return "", nil
+		case "latest":
+			_, _ = st.GetMessage(box, "latest")
 			return "", nil
 		case "list":
 			_, err := st.GetMessages(box)
